@@ -1,5 +1,75 @@
 import XsVerif.Driver.Util
-open Lean XsVerif.Driver
+import XsVerif.Model.Limits
+import XsVerif.Generated.C11
+open Lean XsVerif.Driver XsVerif.Limits XsVerif.Generated.C11
 
--- stub: replaced when the model of C11 lands
-def main : IO Unit := XsVerif.Driver.run fun _ => .error "C11 driver not implemented"
+namespace XsVerif.Driver.C11
+
+def parseEvents (s : String) : List Ev :=
+  s.toList.filterMap fun c =>
+    if c == 's' then some Ev.start else if c == 'e' then some Ev.stop else if c == 'o' then some Ev.other else none
+
+def resStr : ParseRes → String
+  | .ok => "ok" | .depthExceeded => "depth" | .elementsExceeded => "elements"
+
+def limitOf (s : String) : Except String Limit :=
+  match s with
+  | "modelDepth" => pure .modelDepth | "schemaSources" => pure .schemaSources
+  | "xmlDepth" => pure .xmlDepth | "xmlElements" => pure .xmlElements | _ => throw "limit"
+
+def limitsJson (l : Limits) : Json :=
+  Json.mkObj [("modelDepth", Json.num (JsonNumber.fromInt l.modelDepth)),
+              ("schemaSources", Json.num (JsonNumber.fromInt l.schemaSources)),
+              ("xmlDepth", Json.num (JsonNumber.fromInt l.xmlDepth)),
+              ("xmlElements", Json.num (JsonNumber.fromInt l.xmlElements))]
+
+def lookup (n : String) : Option Exc := excTable.find? (·.name == n)
+
+/-- sequence of assignments: the outcome of each and the final limits -/
+def runSets (l : Limits) : List (Limit × Option Int) → List String × Limits
+  | [] => ([], l)
+  | (a, v) :: k =>
+    match setLimit l a v with
+    | .ok l' => let (r, f) := runSets l' k; ("ok" :: r, f)
+    | .typeError => let (r, f) := runSets l k; ("type" :: r, f)
+    | .valueError => let (r, f) := runSets l k; ("value" :: r, f)
+
+def handle (j : Json) : Except String Json := do
+  let op ← getStr j "op"
+  match op with
+  | "parse" =>
+    let L ← getNat j "L"
+    let E ← getNat j "E"
+    let evs := parseEvents (← getStr j "events")
+    return Json.mkObj [("eager", resStr (eagerParse L E evs)), ("lazy", resStr (lazyParse L evs)),
+                       ("exc", match (eagerParse L E evs).excName with | some n => Json.str n | none => Json.null)]
+  | "set" =>
+    let ops ← (← getArr j "ops").toList.mapM fun x => do
+      let a ← x.getArr?
+      let lim ← limitOf (← (a[0]?.getD Json.null).getStr?)
+      let v : Option Int := match a[1]?.getD Json.null with
+        | .num n => if n.exponent == 0 then some n.mantissa else none
+        | _ => none
+      pure (lim, v)
+    let (rs, fin) := runSets limitDefaults ops
+    return Json.mkObj [("results", Json.arr (rs.map Json.str).toArray), ("final", limitsJson fin),
+                       ("applyAll", limitsJson (applyAll limitDefaults ops))]
+  | "classify" =>
+    let n ← getStr j "name"
+    match lookup n with
+    | none => return Json.mkObj [("class", "unknown")]
+    | some c =>
+      let o := match classify (some c) with
+        | .verdict => "verdict" | .libraryError => "library" | .foreign => "foreign"
+      return Json.mkObj [("class", o), ("mro", Json.arr (c.mro.map Json.str).toArray)]
+  | "covers" =>
+    let site ← getStr j "site"
+    let n ← getStr j "name"
+    match sites.find? (·.name == site), lookup n with
+    | some s, some c => return Json.mkObj [("covers", catches s.handlers c)]
+    | _, _ => return Json.mkObj [("covers", Json.null)]
+  | _ => throw s!"unknown op {op}"
+
+end XsVerif.Driver.C11
+
+def main : IO Unit := XsVerif.Driver.run XsVerif.Driver.C11.handle
